@@ -268,6 +268,10 @@ def run(repo, chk):
     chk.ob("R02.4", "probe.Probe._emit:pushes-captured-values", ok, em.where,
            "the event pushed to the stream is {capture name: captured value} (or the raw captures)")
 
+    from .shared import default_of
+    for q_ in ("probe.Probe.__init__", "probe.probing", "probe.global_probe"):
+        chk.ob("R02.4", f"{q_}:raw-defaults-to-False", default_of(repo, q_, "raw") == "False", repo.func(q_).where,
+               f"unless raw=True is asked for, events are the plain {{name: value}} dictionaries (default of `raw` in {q_}: {default_of(repo, q_, 'raw')})")
     # ---------------- R02.5
     bad = []
     n_ix = 0
